@@ -134,4 +134,91 @@ impl Oracle {
                 && forall|j: int| 0 <= j < tokens.len() ==> #[trigger] stored_ok(validator, *map, tokens@, remaining_accounts@, allow_closed, final(self).primary.log@, 0, j),
 //@body
 }
+
+// ---- the storage side: PriceMap::set (the real text; fixed_map! insert as a log) and the read-back of a stored price ------------
+impl OraclePriceFlagContainer {
+    pub fn get_flag(&self, flag: OraclePriceFlag) -> (r: bool)
+        ensures r == (match flag { OraclePriceFlag::Synthetic => self.synthetic, OraclePriceFlag::Open => self.open })
+    { match flag { OraclePriceFlag::Synthetic => self.synthetic, OraclePriceFlag::Open => self.open } }
+}
+pub struct StoredEntry { pub token: TokenKey, pub sp: SmallPrices }
+/// carrier of the fixed_map!-generated PriceMap: what `insert` was called with, in order (the map itself: C34's contract)
+pub struct PriceMapStore { pub ins: Ghost<Seq<StoredEntry>> }
+/// the stored form reads back as exactly this price
+pub open spec fn reads_back(sp: SmallPrices, price: UPrice, is_synthetic: bool, is_open: bool) -> bool {
+    sp.min == price.min.value && sp.max == price.max.value && sp.decimal_multiplier == price.min.decimal_multiplier
+        && sp.decimal_multiplier == price.max.decimal_multiplier && sp.flags.synthetic == is_synthetic && sp.flags.open == is_open
+}
+impl PriceMapStore {
+    #[verifier::external_body]
+    pub fn insert(&mut self, token: &TokenKey, v: SmallPrices) -> (r: Option<SmallPrices>)
+        ensures final(self).ins@ == old(self).ins@.push(StoredEntry { token: *token, sp: v })
+    { unimplemented!() }
+//@unit C24.PriceMap.set
+//@ file programs/store/src/states/oracle/price_map.rs
+//@ within impl PriceMap
+//@ fn set
+//@ sig fn set( &mut self, token: &Pubkey, price: gmsol_utils::Price, is_synthetic: bool, is_open: bool, ) -> Result<()>
+    pub fn set(&mut self, token: &TokenKey, price: UPrice, is_synthetic: bool, is_open: bool) -> (r: Result<(), E>)
+        ensures
+            // a price gets into the map only through the well-formedness gate: 0 < min <= max, one multiplier
+            r.is_ok() ==> price.min.decimal_multiplier == price.max.decimal_multiplier && price.min.value != 0 && price.max.value >= price.min.value,
+            // exactly one entry, for THIS token, that reads back as THIS price with THESE flags
+            r.is_ok() ==> final(self).ins@.len() == old(self).ins@.len() + 1
+                && final(self).ins@.subrange(0, old(self).ins@.len() as int) =~= old(self).ins@
+                && final(self).ins@.last().token == *token && reads_back(final(self).ins@.last().sp, price, is_synthetic, is_open),
+            // a rejected price stores nothing
+            r.is_err() ==> final(self).ins@ == old(self).ins@,
+//@body
+}
+impl SmallPrices {
+//@unit C24.SmallPrices.min
+//@ file programs/store/src/states/oracle/price_map.rs
+//@ within impl SmallPrices
+//@ fn min
+//@ sig fn min(&self) -> Decimal
+    pub fn min(&self) -> (r: Decimal) ensures r.value == self.min, r.decimal_multiplier == self.decimal_multiplier
+//@body
+
+//@unit C24.SmallPrices.max
+//@ file programs/store/src/states/oracle/price_map.rs
+//@ within impl SmallPrices
+//@ fn max
+//@ sig fn max(&self) -> Decimal
+    pub fn max(&self) -> (r: Decimal) ensures r.value == self.max, r.decimal_multiplier == self.decimal_multiplier
+//@body
+
+//@unit C24.SmallPrices.is_synthetic
+//@ file programs/store/src/states/oracle/price_map.rs
+//@ within impl SmallPrices
+//@ fn is_synthetic
+//@ sig fn is_synthetic(&self) -> bool
+    pub fn is_synthetic(&self) -> (r: bool) ensures r == self.flags.synthetic
+//@body
+
+//@unit C24.SmallPrices.is_open
+//@ file programs/store/src/states/oracle/price_map.rs
+//@ within impl SmallPrices
+//@ fn is_open
+//@ sig fn is_open(&self) -> bool
+    pub fn is_open(&self) -> (r: bool) ensures r == self.flags.open
+//@body
+
+//@unit C24.SmallPrices.to_price
+//@ file programs/store/src/states/oracle/price_map.rs
+//@ within impl SmallPrices
+//@ fn to_price
+//@ sig fn to_price(&self) -> Result<gmsol_utils::Price>
+//@ sub gmsol_utils::Price \{ => UPrice {
+    pub fn to_price(&self) -> (r: Result<UPrice, E>)
+        ensures r.is_ok(), r.unwrap().min.value == self.min && r.unwrap().max.value == self.max
+            && r.unwrap().min.decimal_multiplier == self.decimal_multiplier && r.unwrap().max.decimal_multiplier == self.decimal_multiplier
+//@body
+}
+/// ROUND TRIP: what `set` stored for a price reads back, through to_price, as that price
+pub proof fn lemma_stored_price_reads_back(sp: SmallPrices, price: UPrice, s: bool, o: bool, back: UPrice)
+    requires reads_back(sp, price, s, o),
+        back.min.value == sp.min && back.max.value == sp.max && back.min.decimal_multiplier == sp.decimal_multiplier && back.max.decimal_multiplier == sp.decimal_multiplier
+    ensures back == price
+{}
 } // verus!
